@@ -481,6 +481,12 @@ def _a_astype(eng, recv, args, kwargs):
         return SArr(recv.arr, recv.n, k, name=recv.name + "_as", dtype=args[0])
     if k == "real" and recv.kind in ("int", "bool"):
         return SArr(lam(lambda i: to_z3(recv.get(i), "real"), "real"), recv.n, "real", dtype=args[0])
+    if k == "int" and recv.kind == "bool":
+        used(eng, "astype bool->int: True is 1, False is 0")
+        return SArr(lam(lambda i: to_z3(recv.get(i), "int"), "int"), recv.n, "int", dtype=args[0])
+    if k == "bool" and recv.kind in ("int", "real"):
+        used(eng, "astype number->bool: nonzero")
+        return SArr(lam(lambda i: recv.get(i).z != 0, "bool"), recv.n, "bool", dtype=args[0])
     raise Unsupported("astype narrowing on symbolic array")
 
 
